@@ -578,6 +578,11 @@ impl Prop for C20 {
     fn sim_params(&self, c: &Case) -> SimParams {
         SimParams { faults: c.faults.clone(), chunk_r: c.chunk_r.clone(), chunk_w: c.chunk_w.clone(), hash_seed: c.hash_seed, clock_s: 1_750_000_000 }
     }
+    fn process_isolated(&self) -> bool {
+        // ocipkg parses digests and image names with regexes, whose process-global cache pool creates hash
+        // maps under thread contention: runs are executed one at a time in worker processes
+        true
+    }
 
     fn exec(&self, case: &Case, x: &mut Exec) {
         let path = x.path(ARCHIVE);
